@@ -423,7 +423,12 @@ int drv_world(void) {
         } else {
           handle_close_write(atoi(t[1]), fd, H, T);
         }
+        /* the descriptor is the event's: the handler borrows it, the event loop closes it afterwards */
+        int gone = fcntl(fd, F_GETFD) < 0;
         end_op(op, ok(T) ? "ok" : "error");
+        if (gone) {
+          printf("L 999 eventfd-closed-by-handler\n");
+        }
       }
       if (fd >= 0) {
         close(fd);
